@@ -542,3 +542,42 @@ class TupleIntValue_Capacity(Contract):
 
 
 CONTRACTS.append(TupleIntValue_Capacity)
+
+
+# =========================================================================================== Labels: forward compatibility
+class LabelsForward(Contract):
+    """decoding a label text that carries known fields plus an unknown key (sorting before, between or after them): the unknown
+    key is tolerated and every known field keeps its value (checked values are still checked: C16)"""
+    target = 'fim.slivers.capacities_labels:Labels.from_json'
+    extra_targets = ('fim.slivers.capacities_labels:Labels._set_fields',)
+    props = ('C03',)
+    FREE = ['instance', 'local_name', 'device_name']       # fields without a validator: every string is in the domain
+
+    def inputs(self, g):
+        d = PDict()
+        for f in self.FREE:
+            if g.choice(2, f'{f} present?') == 0:
+                d.e[f] = [True, g.str(f'j.{f}')]
+        if g.choice(2, 'a checked field present?') == 0:
+            d.e['vlan'] = [True, g.pick(['100', '4095'], 'a valid vlan')]
+        d.e[g.pick(['aa_future_field', 'kk_future_field', 'zz_future_field'], 'where the unknown key sorts')] = [True, g.str('j.future')]
+        return [JsonText(d, True)], {}
+
+    def body(self, h, s):
+        return h.call(Labels.from_json, s)
+
+    @staticmethod
+    def _sent(pre):
+        import json
+        s = pre.args[0]
+        return s.value if isinstance(s, JsonText) else json.loads(s)
+
+    ensures = {
+        'fwd.tolerates_unknown': lambda pre, post: And(returned(post), isinst(post.result, Labels)),
+        'fwd.keeps_known': lambda pre, post: And(returned(post), isinst(post.result, Labels), forall(
+            LabelsForward.FREE + ['vlan'], lambda f: (same(fld(post.result, f), fld(LabelsForward._sent(pre), f))
+                                                      if has(LabelsForward._sent(pre), f) else fld(post.result, f) is None))),
+    }
+
+
+CONTRACTS.append(LabelsForward)
